@@ -28,6 +28,7 @@ static unsigned long g_key_size;
 static unsigned g_save_calls, g_getmember_calls, g_addmember_calls, g_clear_calls;
 static _Bool g_member_exists;
 static unsigned long g_lookup_len;
+static _Bool g_any_child;              /* a child (value or key routine) has been entered since the container was opened */
 #ifdef VERIF_NATIVE
 #include "lowered_types.h"
 #else
@@ -104,6 +105,7 @@ unsigned int PARSEVARIANT(JD *self, struct VariantData *variant, Filter filter, 
   CHECK(variant != 0 && variant == g_last_added, "C01/C03: the child parses into exactly the slot just added or found (never null)");
   CHECK(FTOKEN(filter) == g_child_filter_token, "C11: the child receives the sub-filter selected for it");
   g_child_parse_calls++;
+  g_any_child = 1;
   if (g_unparsed_adds) g_unparsed_adds--;
   unsigned err = pick_err();
   havoc_position(self, err == Ok);
@@ -114,6 +116,7 @@ unsigned int JsonDeserializer_StubReader__skipVariant(JD *self, NL nl) {
   CHECK(SAFE(self), "child skipVariant precondition: SAFE");
   CHECK(nl.value_ == g_child_limit, "C15: the skipped child receives nestingLimit-1");
   g_child_skip_calls++;
+  g_any_child = 1;
   unsigned err = pick_err();
   __CPROVER_assume(err != NoMemory);
   havoc_position(self, err == Ok);
@@ -124,6 +127,7 @@ unsigned int JsonDeserializer_StubReader__skipVariant(JD *self, NL nl) {
 unsigned int JsonDeserializer_StubReader__parseKey(JD *self) {
   CHECK(SAFE(self), "parseKey precondition: SAFE");
   g_key_calls++;
+  g_any_child = 1;
   unsigned err = pick_err();
   __CPROVER_assume(err != TooDeep && err != EmptyInput);
   havoc_position(self, err == Ok);
@@ -133,6 +137,7 @@ unsigned int JsonDeserializer_StubReader__parseKey(JD *self) {
 unsigned int JsonDeserializer_StubReader__skipKey(JD *self) {
   CHECK(SAFE(self), "skipKey precondition: SAFE");
   g_key_calls++;
+  g_any_child = 1;
   unsigned err = in_bool() ? Ok : IncompleteInput;
   havoc_position(self, err == Ok);
   note(err);
@@ -220,7 +225,7 @@ static JD *mk(char first) {
   g_ended = 0; g_reads = 0; g_have_last = 1; g_last = (unsigned char)first; g_bad_consumed = 0; g_log[0] = 0; g_allowed_class = 0;
   g_child_parse_calls = g_child_skip_calls = g_spaces_calls = g_add_n = g_key_calls = 0;
   g_last_stub_err = 0; g_stub_failed = 0; g_last_added = 0; g_store_failed = 0; g_unparsed_adds = 0;
-  g_deref_calls = 0; g_deref_arg = 0; g_addmember_failed = 0;
+  g_deref_calls = 0; g_deref_arg = 0; g_addmember_failed = 0; g_any_child = 0;
   g_index0_calls = g_indexkey_calls = 0; g_indexkey_arg = 0; g_save_calls = g_getmember_calls = g_addmember_calls = g_clear_calls = 0; g_lookup_len = 0;
 #ifdef FILTER_ALLOWALL
   g_allow[0] = g_allow[1] = g_allow[2] = g_allow[3] = 1;
@@ -258,6 +263,7 @@ static void array_post(JD *d, unsigned err, unsigned char limit, _Bool filtered)
     CHECK(err == InvalidInput, "C10: the only error the array routine itself raises is InvalidInput");
     CHECK(LATCHED(d) && d->latch_.current_ != ',' && d->latch_.current_ != ']' && d->latch_.current_ != 0,
           "C10: ... for a byte that is neither ',' nor ']' after a value (the byte is not consumed)");
+    CHECK(!IS_WS(d->latch_.current_), "C01/C10: whitespace between tokens is insignificant: the verdict is never based on a whitespace byte");
   }
   CHECK(g_unparsed_adds == 0 || err != Ok, "C01: on Ok every added element was parsed");
 #ifndef FILTER_ALLOWALL
@@ -322,6 +328,7 @@ static void object_post(JD *d, unsigned err, unsigned char limit) {
   if (!g_stub_failed && !g_store_failed && err != Ok) {
     CHECK(err == InvalidInput, "C10: the only error the object routine itself raises is InvalidInput");
     CHECK(LATCHED(d) && d->latch_.current_ != 0, "C10: ... for a wrong byte where ':' , ',' or '}' is required (the byte is not consumed)");
+    CHECK(!IS_WS(d->latch_.current_), "C01/C10: whitespace between tokens is insignificant: the verdict is never based on a whitespace byte");
   }
   CHECK(g_unparsed_adds == 0 || err != Ok, "C01: on Ok every added member was parsed");
 }
